@@ -116,6 +116,10 @@ def parseQuery (j : Json) : Except String Query := do
   | "mul" | "div" =>
     pure (.prod (if q == "mul" then .mul else .div) (← getSym j "c1") (← getSym j "u1") (← getSym j "c2")
       (← getSym j "u2") (← getRat j "x") (← getRat j "y"))
+  | "sumd" =>
+    let f ← getStr j "f"
+    let e2 ← (← getArr j "ents2").toList.mapM jEnt
+    pure (.sumd (if f == "add" then .add else .sub) (← getEnts j) e2 (← getRat j "x") (← getRat j "y"))
   | "derived" => pure (.derived (← getEnts j))
   | "createDerived" => pure (.createDerived (← getEnts j))
   | _ => throw s!"unknown query {q}"
@@ -171,6 +175,14 @@ def qMag (r : Registry) : Query → Rat
   | .add _ _ c2 u2 x y =>
     let qt := match catGet r.cats c2 with | some ci => ci.qtype | none => c2
     maxR (absR x) (convMag r qt u2 u2 y)
+  | .sumd _ e1 e2 x y =>
+    -- the matched values (unit conversions inside and across the operands) bound the intermediates
+    match matchList lg r (decide (1 < e1.length)) [] x e1 with
+    | .ok (used, x', _) =>
+      (match matchList lg r (decide (1 < e2.length)) used y e2 with
+       | .ok (_, y', _) => maxR (maxR (maxR (absR x) (absR y)) (maxR (absR x') (absR y'))) 1000
+       | .error _ => maxR (maxR (absR x) (absR y)) 1000)
+    | .error _ => maxR (maxR (absR x) (absR y)) 1000
   | .prod _ _ _ c2 u2 x y =>
     let qt := match catGet r.cats c2 with | some ci => ci.qtype | none => c2
     maxR (absR x) (convMag r qt u2 u2 y)
